@@ -316,11 +316,20 @@ func (d *Disk) Apply(idx int, ev *Event, norm Norm) (Effect, error) {
 		return ""
 	}
 	fdOf := func(i int) (int, *openFile) {
-		fd, _, ok := fdArg(arg(i))
+		fd, apath, ok := fdArg(arg(i))
 		if !ok {
 			return -1, nil
 		}
-		return fd, d.fds[fd]
+		of := d.fds[fd]
+		if of != nil && apath != "" && !d.Watched(apath) {
+			// strace's own decoding (-y) says that this descriptor is
+			// something outside the watched tree now: its close was not seen
+			// (another, untraced thread - e.g. a finalizer - closed it) and
+			// the number has been reused.
+			delete(d.fds, fd)
+			return fd, nil
+		}
+		return fd, of
 	}
 	unsupported := func(what string) (Effect, error) {
 		return eff, fmt.Errorf("crashfs: syscall not interpreted by the disk model touches the watched tree (%s): %s", what, ev)
@@ -346,6 +355,10 @@ func (d *Disk) Apply(idx int, ev *Event, norm Norm) (Effect, error) {
 				return unsupported("openat2")
 			}
 			return eff, nil
+		}
+		if !failed {
+			// Whatever this number meant before, it is a new file now.
+			delete(d.fds, int(ev.Ret))
 		}
 		if !ok {
 			return eff, nil
